@@ -64,8 +64,15 @@ SeqEq(st, a, b, i, d) ==
     ELSE LET r == ValEq(st, a[i], b[i], d) IN
          IF r = "t" THEN SeqEq(st, a, b, i + 1, d) ELSE r
 RECURSIVE MapEq(_, _, _, _, _)
-KeyIndex(ks, k) == LET S == {i \in 1 .. Len(ks) : ks[i].t = k.t /\ ks[i] = k} IN
+KeyEq(a, b) == IF IsNum(a) /\ IsNum(b) THEN NumCmp(a, b) = 0 ELSE a.t = b.t /\ a = b
+KeyIndex(ks, k) == LET S == {i \in 1 .. Len(ks) : KeyEq(ks[i], k)} IN
                    IF S = {} THEN 0 ELSE CHOOSE i \in S : TRUE
+(* hashable values (guide: Map Key Types): immutable values; tuples of immutable values *)
+RECURSIVE Hashable(_)
+Hashable(v) == CASE v.t \in {"null", "bool", "int", "flt", "str", "rng"} -> TRUE
+                 [] v.t = "tup" -> \A i \in 1 .. Len(v.v) : Hashable(v.v[i])
+                 [] OTHER -> FALSE
+KeyOk(v) == Hashable(v) /\ (v.t = "tup" => \A i \in 1 .. Len(v.v) : v.v[i].t # "flt")
 MapEq(st, ma, mb, i, d) ==   \* same key set, equal values; order does not matter
     IF i > Len(ma.ks) THEN "t"
     ELSE LET j == KeyIndex(mb.ks, ma.ks[i]) IN
@@ -108,7 +115,7 @@ Observable(st, v, d) ==
                 LET o == st[v.v] IN
                 IF o.k = "list" THEN \A i \in 1 .. Len(o.v) : Observable(st, o.v[i], d - 1)
                 ELSE o.meta = <<>> /\ \A i \in 1 .. Len(o.vs) :
-                        Observable(st, o.vs[i], d - 1) /\ o.ks[i].t = "str"
+                        Observable(st, o.vs[i], d - 1) /\ Observable(st, o.ks[i], d - 1)
 
 RECURSIVE Disp(_, _, _)
 RECURSIVE DispSeq(_, _, _)
@@ -118,7 +125,8 @@ DispSeq(st, s, i) ==
 RECURSIVE DispEntries(_, _, _)
 DispEntries(st, o, i) ==
     IF i > Len(o.ks) THEN ""
-    ELSE o.ks[i].v \o ": " \o Disp(st, o.vs[i], TRUE) \o (IF i < Len(o.ks) THEN ", " ELSE "")
+    ELSE (IF o.ks[i].t = "str" THEN o.ks[i].v ELSE Disp(st, o.ks[i], TRUE)) \o ": " \o Disp(st, o.vs[i], TRUE)
+         \o (IF i < Len(o.ks) THEN ", " ELSE "")
          \o DispEntries(st, o, i + 1)
 Disp(st, v, q) ==
     CASE v.t = "null" -> "null"
@@ -275,7 +283,16 @@ IndexAssign(c, cv, iv, v) ==
             THEN Rt([c EXCEPT !.store[cv.v].v[iv.v + 1] = v], VBot)
             ELSE RtErr(c, "index"))
     ELSE IF IsList(c, cv) /\ iv.t = "rng" THEN Unspec(c, "slice-assign")
-    ELSE IF IsMap(c, cv) THEN Unspec(c, "map-index-assign")
+    ELSE IF IsMap(c, cv) THEN
+        \* guide, Entry Order: an entry is replaced by assigning a key/value tuple to its index
+        (LET o == c.store[cv.v] IN
+         IF o.meta # <<>> \/ iv.t # "int" THEN Unspec(c, "map-index-assign")
+         ELSE IF iv.v < 0 \/ iv.v >= Len(o.ks) THEN (IF iv.v < 0 THEN Unspec(c, "negative-index") ELSE RtErr(c, "index"))
+         ELSE IF v.t # "tup" \/ Len(v.v) # 2 THEN (IF IsBot(v) THEN Unspec(c, "bot") ELSE RtErr(c, "entry-type"))
+         ELSE IF ~KeyOk(v.v[1]) THEN Unspec(c, "key-kind")
+         ELSE LET j == KeyIndex(o.ks, v.v[1]) IN
+              IF j # 0 /\ j # iv.v + 1 THEN Unspec(c, "entry-key-used-elsewhere")     \* guide silent (an error in the code)
+              ELSE Rt([c EXCEPT !.store[cv.v] = [o EXCEPT !.ks[iv.v + 1] = v.v[1], !.vs[iv.v + 1] = v.v[2]]], VBot))
     ELSE IF cv.t \in {"estr"} \/ iv.t = "estr" THEN Unspec(c, "estr")
     ELSE RtErr(c, "index-assign")
 
@@ -346,6 +363,47 @@ BindSeq(env, names, s, i) ==
 (***************************************************************************)
 (* Core library functions modelled here (docs/core_lib).                   *)
 (***************************************************************************)
+(* stable insertion sort of numbers or of strings (docs: list.sort); "u" when the kinds are mixed *)
+SortKind(s) == IF \A i \in 1 .. Len(s) : IsNum(s[i]) /\ s[i].t # "fsp" THEN "num"
+               ELSE IF \A i \in 1 .. Len(s) : s[i].t = "str" THEN "str" ELSE "mixed"
+LessV(a, b) == IF IsNum(a) THEN NumCmp(a, b) < 0 ELSE StrCmp(a.v, b.v) < 0
+RECURSIVE InsertSorted(_, _)
+InsertSorted(sorted, x) ==       \* after every element that is not greater than x (stable)
+    IF sorted = <<>> THEN <<x>>
+    ELSE IF LessV(x, Head(sorted)) THEN <<x>> \o sorted
+    ELSE <<Head(sorted)>> \o InsertSorted(Tail(sorted), x)
+RECURSIVE KSortSeq(_, _)
+KSortSeq(s, acc) == IF s = <<>> THEN acc ELSE KSortSeq(Tail(s), InsertSorted(acc, Head(s)))
+(* permutation that sorts keys: indices in sorted order *)
+RECURSIVE SortIdx(_, _, _)
+InsertIdx(ks, sorted, i) ==
+    LET RECURSIVE G(_)
+        G(r) == IF r = <<>> THEN <<i>>
+                ELSE IF LessV(ks[i], ks[Head(r)]) THEN <<i>> \o r ELSE <<Head(r)>> \o G(Tail(r))
+    IN G(sorted)
+SortIdx(ks, i, acc) == IF i > Len(ks) THEN acc ELSE SortIdx(ks, i + 1, InsertIdx(ks, acc, i))
+
+(* deep_copy: an independent tree (docs: koto.deep_copy).  Result [store, v]. *)
+RECURSIVE DeepCopy(_, _, _)
+RECURSIVE DeepCopySeq(_, _, _, _, _)
+DeepCopySeq(st, s, i, acc, d) ==
+    IF i > Len(s) THEN [store |-> st, s |-> acc]
+    ELSE LET r == DeepCopy(st, s[i], d) IN DeepCopySeq(r.store, s, i + 1, Append(acc, r.v), d)
+DeepCopy(st, v, d) ==
+    IF d = 0 THEN [store |-> st, v |-> VBot]
+    ELSE CASE v.t = "tup" -> (LET r == DeepCopySeq(st, v.v, 1, <<>>, d - 1) IN [store |-> r.store, v |-> VTup(r.s)])
+           [] v.t = "ref" ->
+                (LET o == st[v.v] IN
+                 IF o.k = "list" THEN
+                    LET r == DeepCopySeq(st, o.v, 1, <<>>, d - 1) IN
+                    [store |-> Append(r.store, [k |-> "list", v |-> r.s]), v |-> VRef(Len(r.store) + 1)]
+                 ELSE IF o.meta # <<>> THEN [store |-> st, v |-> VBot]
+                 ELSE LET r == DeepCopySeq(st, o.vs, 1, <<>>, d - 1) IN
+                      [store |-> Append(r.store, [k |-> "map", ks |-> o.ks, vs |-> r.s, meta |-> <<>>]),
+                       v |-> VRef(Len(r.store) + 1)])
+           [] v.t \in {"fn", "itr"} -> [store |-> st, v |-> VBot]
+           [] OTHER -> [store |-> st, v |-> v]
+
 RECURSIVE SeqContains(_, _, _, _)
 SeqContains(st, s, v, i) ==
     IF i > Len(s) THEN "f"
@@ -381,6 +439,9 @@ CoreCall(c, node, vs) ==
             (LET r == ValEq(c.store, vs[1], vs[2], 6) IN
              IF r = "u" THEN Unspec(c, "assert_eq-unspec")
              ELSE IF r = "t" THEN Rt(c, VNull) ELSE RtErr(c, "assert_eq"))
+      [] f = "deep_copy" ->
+            (LET r == DeepCopy(c.store, vs[1], 6) IN
+             IF IsBot(r.v) THEN Unspec(c, "deep_copy-kind") ELSE Rt([c EXCEPT !.store = r.store], r.v))
       [] f = "copy" ->
             (LET v == vs[1] IN
              IF v.t = "ref" THEN
@@ -557,12 +618,36 @@ IterMethod(c, node, recv, args) ==
                      ELSE Pull(Push(ai.c, [k |-> "fold", acc |-> args[1], f |-> args[2], a |-> ai.a, ph |-> "pull"]), ai.a))
 
 (* method calls on containers: node.m with receiver vs[1] and arguments the rest *)
+(* Which core-library module provides a method (docs/core_lib): a value's own module, then the iterator
+   module for iterable values.  A method that neither provides is an error ("not found in module"). *)
+IterModule == {"advance", "all", "any", "chain", "chunks", "consume", "count", "cycle", "each", "enumerate", "find", "flatten",
+               "fold", "generate", "intersperse", "iter", "keep", "last", "max", "min", "min_max", "next", "next_back", "once",
+               "peekable", "position", "product", "repeat", "reversed", "skip", "step", "sum", "take", "to_list", "to_map",
+               "to_string", "to_tuple", "windows", "zip"}
+ListModule == {"clear", "contains", "extend", "fill", "first", "get", "insert", "is_empty", "last", "pop", "push", "remove",
+               "resize", "resize_with", "retain", "reverse", "sort", "swap", "to_tuple", "transform"}
+MapModule == {"clear", "contains_key", "extend", "get", "get_index", "get_meta", "insert", "is_empty", "keys", "remove", "sort",
+              "update", "values", "with_meta"}
+TupleModule == {"contains", "first", "get", "is_empty", "last", "sort_copy", "to_list"}
+HasMethod(c, v, m) ==
+    CASE IsList(c, v) -> m \in ListModule \cup IterModule
+      [] IsMap(c, v) -> m \in MapModule \cup IterModule
+      [] v.t = "tup" -> m \in TupleModule \cup IterModule
+      [] v.t = "itr" -> m \in IterModule
+      [] OTHER -> TRUE          \* strings, numbers, ranges ...: not tabulated here
+KnownNoMethod(c, v, m) ==       \* kinds whose modules are tabulated here or that have no such methods at all
+    \/ (v.t \in {"ref", "tup", "itr"} /\ ~HasMethod(c, v, m))
+    \/ (v.t \in {"int", "flt", "null", "bool"} /\ m \in ListModule \cup MapModule \cup TupleModule \cup IterModule
+         /\ m \notin {"contains", "min", "max", "sum"})
+
 MethodCall(c, node, vs) ==
     LET m == node.m
         recv == vs[1]
         args == Tail(vs)
     IN
     IF IsBot(recv) \/ recv.t = "estr" THEN Unspec(c, "bot-receiver")
+    ELSE IF ~(IsMap(c, recv) /\ (c.store[recv.v].meta # <<>> \/ MapGet(c.store[recv.v], VStr(m)).ok)) /\ KnownNoMethod(c, recv, m)
+        THEN RtErr(c, "no-such-method")
     ELSE IF recv.t = "itr" THEN
         (IF m \in IterMethods THEN IterMethod(c, node, recv, args) ELSE Unspec(c, "iterator-method"))
     ELSE IF recv.t = "iout" THEN
@@ -590,6 +675,25 @@ MethodCall(c, node, vs) ==
                             ELSE Rt(c, IF args[1].v < Len(l) THEN l[args[1].v + 1] ELSE VNull))
            [] m = "to_tuple" -> Rt(c, VTup(l))
            [] m = "to_list" -> Rt(Alloc(c, [k |-> "list", v |-> l]), VRef(NewAddr(c)))
+           [] m = "extend" ->
+                \* docs: list.extend -- appends the iterable's values; the argument may be the list itself
+                (LET el == ElemsOf(c, args[1]) IN
+                 IF ~el.ok \/ ~(args[1].t \in {"tup", "ref", "rng", "str"}) THEN Unspec(c, "extend-kind")
+                 ELSE Rt([c EXCEPT !.store[a].v = @ \o el.s], recv))
+           [] m = "sort" ->
+                (IF args # <<>> THEN Unspec(c, "sort-with-key")
+                 ELSE IF SortKind(l) = "mixed" THEN Unspec(c, "sort-mixed")
+                 ELSE Rt([c EXCEPT !.store[a].v = KSortSeq(l, <<>>)], recv))
+           [] m = "fill" -> Rt([c EXCEPT !.store[a].v = [i \in 1 .. Len(l) |-> args[1]]], recv)
+           [] m = "swap" ->
+                (IF ~IsList(c, args[1]) THEN (IF IsBot(args[1]) THEN Unspec(c, "swap-bot") ELSE RtErr(c, "swap-type"))
+                 ELSE Rt([c EXCEPT !.store[a].v = c.store[args[1].v].v, !.store[args[1].v].v = l], VNull))
+           [] m = "resize" ->
+                (IF args[1].t # "int" \/ args[1].v < 0 THEN Unspec(c, "resize-arg")
+                 ELSE LET n == args[1].v
+                          fillv == IF Len(args) >= 2 THEN args[2] ELSE VNull IN
+                      Rt([c EXCEPT !.store[a].v = IF n <= Len(l) THEN SubSeq(l, 1, n)
+                                                   ELSE l \o [i \in 1 .. (n - Len(l)) |-> fillv]], recv))
            [] m = "reverse" -> Rt([c EXCEPT !.store[a].v = [i \in 1 .. Len(l) |-> l[Len(l) + 1 - i]]], recv)
            [] m = "insert" -> (IF args[1].t # "int" THEN (IF IsBot(args[1]) THEN Unspec(c, "insert-bot")
                                                           ELSE RtErr(c, "insert-type"))
@@ -609,17 +713,17 @@ MethodCall(c, node, vs) ==
         (LET a == recv.v  o == c.store[recv.v] IN
          IF o.meta # <<>> THEN Unspec(c, "meta-method")
          ELSE CASE m = "insert" ->
-                (IF ~(args[1].t \in {"str", "int", "bool", "null"}) THEN Unspec(c, "key-kind")
+                (IF ~KeyOk(args[1]) THEN (IF Hashable(args[1]) \/ IsBot(args[1]) THEN Unspec(c, "key-kind") ELSE RtErr(c, "unhashable-key"))
                  ELSE LET old == MapGet(o, args[1]) IN
                       Rt([c EXCEPT !.store[a] = MapPut(o, args[1], args[2])], IF old.ok THEN old.v ELSE VNull))
            [] m = "get" ->
-                (IF ~(args[1].t \in {"str", "int", "bool", "null"}) THEN Unspec(c, "key-kind")
+                (IF ~KeyOk(args[1]) THEN (IF Hashable(args[1]) \/ IsBot(args[1]) THEN Unspec(c, "key-kind") ELSE RtErr(c, "unhashable-key"))
                  ELSE LET r == MapGet(o, args[1]) IN Rt(c, IF r.ok THEN r.v ELSE VNull))
            [] m = "contains_key" ->
-                (IF ~(args[1].t \in {"str", "int", "bool", "null"}) THEN Unspec(c, "key-kind")
+                (IF ~KeyOk(args[1]) THEN (IF Hashable(args[1]) \/ IsBot(args[1]) THEN Unspec(c, "key-kind") ELSE RtErr(c, "unhashable-key"))
                  ELSE Rt(c, VBool(MapGet(o, args[1]).ok)))
            [] m = "remove" ->
-                (IF ~(args[1].t \in {"str", "int", "bool", "null"}) THEN Unspec(c, "key-kind")
+                (IF ~KeyOk(args[1]) THEN (IF Hashable(args[1]) \/ IsBot(args[1]) THEN Unspec(c, "key-kind") ELSE RtErr(c, "unhashable-key"))
                  ELSE LET j == KeyIndex(o.ks, args[1]) IN
                       IF j = 0 THEN Rt(c, VNull)
                       ELSE Rt([c EXCEPT !.store[a] =
@@ -628,7 +732,24 @@ MethodCall(c, node, vs) ==
                               o.vs[j]))
            [] m = "is_empty" -> Rt(c, VBool(o.ks = <<>>))
            [] m = "clear" -> Rt([c EXCEPT !.store[a] = [o EXCEPT !.ks = <<>>, !.vs = <<>>]], recv)
-           [] m = "keys" -> Unspec(c, "keys-iterator")
+           [] m = "keys" -> Rt(Alloc(c, [k |-> "it", it |-> [k |-> "seq", v |-> o.ks, i |-> 1]]), VItr(NewAddr(c)))
+           [] m = "values" -> Rt(Alloc(c, [k |-> "it", it |-> [k |-> "seq", v |-> o.vs, i |-> 1]]), VItr(NewAddr(c)))
+           [] m = "get_index" ->
+                (IF args[1].t # "int" \/ args[1].v < 0 THEN Unspec(c, "get_index-arg")
+                 ELSE Rt(c, IF args[1].v < Len(o.ks) THEN VTup(<<o.ks[args[1].v + 1], o.vs[args[1].v + 1]>>) ELSE VNull))
+           [] m = "extend" ->
+                \* docs: map.extend -- existing keys are updated in place, new keys are appended in order
+                (IF ~IsMap(c, args[1]) \/ c.store[args[1].v].meta # <<>> THEN Unspec(c, "map-extend-kind")
+                 ELSE LET o2 == c.store[args[1].v]
+                          j == MapJoin(o.ks, o.vs, o2.ks, o2.vs, 1) IN
+                      Rt([c EXCEPT !.store[a] = [o EXCEPT !.ks = j.ks, !.vs = j.vs]], recv))
+           [] m = "sort" ->
+                \* docs: map.sort -- entries sorted by key
+                (IF args # <<>> THEN Unspec(c, "sort-with-key")
+                 ELSE IF SortKind(o.ks) = "mixed" THEN Unspec(c, "sort-mixed")
+                 ELSE LET idx == SortIdx(o.ks, 1, <<>>) IN
+                      Rt([c EXCEPT !.store[a] = [o EXCEPT !.ks = [i \in 1 .. Len(idx) |-> o.ks[idx[i]]],
+                                                         !.vs = [i \in 1 .. Len(idx) |-> o.vs[idx[i]]]]], recv))
            [] OTHER -> Unspec(c, "map-method"))
     ELSE IF recv.t = "tup" THEN
         (CASE m = "first" -> Rt(c, IF recv.v = <<>> THEN VNull ELSE recv.v[1])
